@@ -536,6 +536,7 @@ func fmtClasses(c *FmtCase) []string {
 
 func TestC04(t *testing.T) {
 	defer recC04.Flush()
+	onWideGlobDamage = func() { recC04.Excluded("include.wide-glob") }
 	sv := newSurvey()
 	if surveyOn() {
 		defer sv.print()
@@ -561,6 +562,7 @@ func TestC04(t *testing.T) {
 
 func TestC05(t *testing.T) {
 	defer recC05.Flush()
+	onWideGlobDamage = func() { recC05.Excluded("include.wide-glob") }
 	sv := newSurvey()
 	if surveyOn() {
 		defer sv.print()
